@@ -321,6 +321,10 @@ def check_embedded_default(case, text):
 def bool_index(e):
     """spec-side: some subscript index / slice bound is a bool-typed expression (not x, a comparison, True/False)"""
     def is_bool(x):
+        if x["k"] == "bool":
+            return any(is_bool(y) for y in x["c"])
+        if x["k"] == "cond":
+            return is_bool(x["c"][0]) or is_bool(x["c"][2])
         return (x["k"] == "un" and x["v"][0] == "not") or x["k"] == "cmp" or (x["k"] == "atom" and x["v"][0] in ("True", "False"))
     if e["k"] == "sub":
         idx = e["c"][1]
